@@ -5,7 +5,8 @@ With --src, confirmed seeds found there are first copied into /verif/seeded."""
 import json, os, re, shutil, subprocess, sys
 V = "/verif"
 EXTRA = {  # checks, besides the seed's own property, that are worth running against it
- "C01": ["C04", "C06"], "C02": ["C06", "C09"], "C03": ["C06"], "C04": ["C12", "C07"], "C06": ["C04", "C05", "C08"], "C07": ["C14", "C04"], "C09": ["C06"], "C16": ["C14"], "C19": ["C10"],
+ "C01": ["C04", "C06", "C09", "C11"], "C02": ["C06", "C09"], "C03": ["C06"], "C04": ["C12", "C07"], "C06": ["C04", "C05", "C08", "C11"], "C07": ["C14", "C04", "C15"],
+ "C09": ["C06"], "C10": ["C11"], "C11": ["C06"], "C16": ["C14"], "C19": ["C10"],
 }
 def sh(cmd, **kw):
     return subprocess.run(cmd, shell=True, capture_output=True, text=True, **kw)
@@ -38,6 +39,9 @@ def main():
                     continue
                 conf = [l.strip() for l in open(log) if re.match(r"(CLEAN-DEMO|APPLY|BUILD|MUT-DEMO|EXISTING):", l)]
                 ok = conf == ["CLEAN-DEMO: pass", "APPLY: ok", "BUILD: ok", "MUT-DEMO: FAIL", "EXISTING: ok"]
+                # a change that a later fix: commit made harmless (its demonstration passes with the patch applied) is kept
+                # as a canary: no check may report it
+                ok = ok or conf == ["CLEAN-DEMO: pass", "APPLY: ok", "BUILD: ok", "MUT-DEMO: pass", "EXISTING: ok"]
                 dst = os.path.join(V, "seeded", prop + "-" + prefix + m)
                 if not ok:
                     print("not confirmed, skipped:", prop, m, conf)
@@ -107,6 +111,12 @@ def run(ids, WT, ENG):
             sh("git -C %s checkout -q -- . && git -C %s clean -fdq" % (WT, WT))
         meta["checks_run"] = props
         meta["detected"] = bool(hits) if props else False
+        harmless = "MUT-DEMO: pass" in meta.get("confirmation", [])
+        if harmless and not hits:
+            meta["detected"] = None
+            meta.setdefault("note", "harmless on /repo HEAD (the demonstration passes with the patch applied: a later fix: commit enforces the property elsewhere), hence correctly not reported")
+        if harmless and hits:
+            print(sid, "FALSE-ALARM-ON-HARMLESS-CHANGE", hits)
         meta["detections"] = hits
         meta.pop("engine_errors", None)
         if errors:
